@@ -376,7 +376,7 @@ func c20CheckV(r *rep.Run, w *c20worker, c c20cfg, level int, how string, res ev
 
 func c20(r *rep.Run) {
 	maxDev, seeds, exhaustLevel := 3, 4000, 1
-	r.SetBudget(150e9)
+	r.SetBudget(300e9)
 	if r.Thorough() {
 		maxDev, seeds = 4, 100000
 		c20LeafVals = []int{0, 1, 49, 50, 51, 52, 99}
